@@ -10,7 +10,7 @@ fail=0
 run_one() {
     patch="$1"; pid="$2"; name="$3"
     scratch="$(mktemp -d /tmp/qrv-mut-XXXXXX)"
-    cp -r /repo/quantarhei "$scratch/quantarhei"
+    cp -r /repo/quantarhei "$scratch/quantarhei"; cp -r /repo/tests "$scratch/tests"
     if ! (cd "$scratch" && patch -p1 --quiet < "$patch"); then
         echo "MUTANT $name: patch does not apply"; rm -rf "$scratch"; fail=1; return
     fi
